@@ -1,7 +1,9 @@
 package main
 
 import (
+	typ "gopkg.in/typ.v4"
 	"gopkg.in/typ.v4/avl"
+	"math"
 )
 
 // C01/C02: avl trees.
@@ -39,6 +41,23 @@ func (w *c01) cmp(id int) func(a, b int) int {
 			}
 			return base(a, b)
 		}
+	case 3:
+		// the library's own comparator (what avl.NewOrdered installs) over ADJACENT float64 values: v ↦ the v-th double above 1.0
+		// (order-isomorphic to the ints; a tolerance or rounding in typ.Compare makes neighbours compare equal)
+		f = func(a, b int) int {
+			return typ.Compare(math.Float64frombits(0x3ff0000000000000+uint64(a)), math.Float64frombits(0x3ff0000000000000+uint64(b)))
+		}
+	case 4:
+		// typ.Compare over ints at the two ends of the int range (0, 1, 2 at the bottom, 3..1000 at the top: order-isomorphic to the ints in 0..1000; a subtraction inside Compare wraps)
+		g := func(v int) int {
+			if v < 3 {
+				return math.MinInt + v
+			}
+			return math.MaxInt - (1000 - v)
+		}
+		f = func(a, b int) int { return typ.Compare(g(a), g(b)) }
+	case 5:
+		f = func(a, b int) int { return typ.Compare(a, b) }
 	default:
 		panic(badOp{})
 	}
